@@ -21,7 +21,7 @@ RULE = (
     "different kinds and finite outputs. Distinct = SHA-1 of the case."
 )
 BUDGET = {"quick": {"examples": 200, "shards": 4}, "thorough": {"fuzz_runs": 3000, "examples": 2000, "shards": 16}}
-EXPECTED_LABELS = ("engine:SX", "engine:MX", "compact:-1", "compact:0", "compact:1", "compact:2", "compact:3", "more_out", "par:rho_crit",
+EXPECTED_LABELS = ("vector-parameter", "restep", "engine:SX", "engine:MX", "compact:-1", "compact:0", "compact:1", "compact:2", "compact:3", "more_out", "par:rho_crit",
                    "par:v_free", "par:a", "par:C", "par:tau", "par:eta", "par:kappa", "par:T", "par:delta", "par:phi",
                    "unused-parameter", "lane-drop>0", "interior-ramp")
 ASSUMPTIONS = ["tolerance 1e-12 x term scale between the two compiled functions", "layout of the non-parameter arguments from lib/layout.py"]
@@ -38,6 +38,7 @@ def cases(draw):
         "more_out": draw(st.booleans()),
         "opts": [],
         "sympars": draw(c03.sympar_choice(sp)),
+        "restep": draw(st.integers(0, 3)) == 0,
     }
 
 
@@ -70,12 +71,17 @@ def check_case(case, ctx):
     for eid, pname in case["sympars"]:
         ctx.label("par:" + pname)
         kinds.add(pname)
+        if eid == "$vector":
+            ctx.label("vector-parameter")
+            continue
         if unused(sp, eid, pname):
             ctx.label("unused-parameter")
     overrides, par_over, parameters, values = c03.make_symbolic(sp, sym, case["sympars"])
-    params = [(k, 1) for k in parameters]
+    params = [(k, v.numel()) for k, v in parameters.items()]
     declared = list(parameters.items())
-    stp = guarded(ctx, "step-symbolic", cas.Stepped, sp, sym, (), overrides, par_over)
+    if case.get("restep"):
+        ctx.label("restep")
+    stp = guarded(ctx, "step-symbolic", cas.Stepped, sp, sym, (), overrides, par_over, None, None, bool(case.get("restep")))
     if crashed(stp):
         return
     r = guarded(ctx, "compile-symbolic", stp.to_function, compact, more_out, parameters)
@@ -105,14 +111,14 @@ def check_case(case, ctx):
         if names != exp:
             ctx.fail("parameters:order:level0", f"arguments {names}, expected the parameters {keys} as trailing arguments in declared order after {base}")
             return
-        if [F.numel_in(len(base) + k) for k in range(len(keys))] != [1] * len(keys):
+        if [F.numel_in(len(base) + k) for k in range(len(keys))] != [n_ for _, n_ in params]:
             ctx.fail("parameters:size:level0", f"parameter argument sizes {[F.numel_in(len(base) + k) for k in range(len(keys))]}")
             return
     else:
         if names != base + ["p"]:
             ctx.fail(f"parameters:names:level{level}", f"arguments {names}, expected {base + ['p']}")
             return
-        if F.numel_in(len(base)) != len(keys):
+        if F.numel_in(len(base)) != sum(n_ for _, n_ in params):
             ctx.fail(f"parameters:size:level{level}", f"stacked parameter vector has {F.numel_in(len(base))} entries, {len(keys)} parameters were declared: {keys}")
             return
     finite = True
